@@ -73,6 +73,10 @@ def shl (a : UInt64) (n : Nat) : UInt64 := if n < 64 then a <<< UInt64.ofNat n e
 /-- `a >> n` on `uint64`: 0 once `n ≥ 64` -/
 def shr (a : UInt64) (n : Nat) : UInt64 := if n < 64 then a >>> UInt64.ofNat n else 0
 
+/-- `fmt.Sprintf(format, …)`: only the format is kept (the rendered arguments never influence control flow in
+    the translated functions; the string is used to identify the error value that is built from it) -/
+def sprintf (format : String) : String := format
+
 /-- `uint64(i)` for an `int` -/
 def intToU64 (i : Int) : UInt64 := UInt64.ofInt i
 
